@@ -17,7 +17,7 @@ func init() {
 		Explanation: "Decides the structural clauses of C10 on every path of the 9 engine action methods and the 9 hand-side single actions: the engine lock is held; the hand call is dominated by successful validation (status playing, known hand index) and a successful player-index lookup; every effect in the method (store to existing state, statistics, callbacks) is control-dependent on the hand call's success and the method returns that call's error; Player<X> calls Game.<X> and publishes the label of X for the caller's own id; each hand-side action validates first (current-player validator for wager actions and pass, allowed-action validator with its own action name for ready/pay) and touches nothing on failure; validator definitions are checked on every non-error exit. NOT decided: whether the hand allows that wager action for the current player (delegated to the pokerface backend); concurrency (see C16).",
 		Rules: map[string]string{
 			"R1": "engine mutex must-held at the hand call; entry Lock + deferred Unlock; no explicit Unlock",
-			"R2": "hand call dominated by validate(FindGamePlayerIdx(own id)) == nil and by player-index lookup != unset; index passed to the hand is that same lookup",
+			"R2": "hand call dominated by validate(FindGamePlayerIdx(own id)) == nil and by player-index lookup != unset; index passed to the hand is that same lookup; the id → hand index look-ups answer exactly at the entry of the player asked for, and a departure during the hand re-maps the hand index list through the new player list without filtering the live list in place (as C02.R4/R5)",
 			"R3": "every effect in the method is guarded by the hand call's err == nil; every exit after the hand call returns that err",
 			"R4": "Player<X> invokes Game.<X>; published label equals the action constant of X",
 			"R5": "hand-side single action: validator call first with own index (and own action name); backend call / ready-group signal / state update dominated by validator success",
@@ -38,6 +38,11 @@ func checkC10(c *Ctx) {
 	p := c.P
 	// R9: the published last action is only ever cleared by the hook, when a betting round closes
 	checkUpdateHook(c, "R9", "lastaction", "store")
+	// R2 (part): the id → hand index translation every action relies on stays valid when somebody leaves
+	// during the hand (as C02.R4): re-mapped through the new player list, never filtered in place
+	checkLeaveRemap(c, "R2")
+	checkInPlaceFilter(c, "R2")
+	checkTableLookups(c, "R2", "FindPlayerIdx", "FindGamePlayerIdx")
 	// R8: "a hand is being played" (the status the engine-side validator tests) is only
 	// ever recorded after the hand's Start succeeded
 	if lc := p.lifecycle(); lc.startFn != nil && lc.startCall != nil {
